@@ -1034,12 +1034,19 @@ func (r *run) checkQuiescentTables() {
 		s.Fail("table_leak", "rpc.go:(*Conn).handleFinish", fmt.Sprintf("after every question was finished and every export released, the Conn's tables still hold answers=%d exports=%d questions=%d embargoes=%d imports=%d", v.Answers, v.Exports, v.Questions, v.Embargoes, v.Imports))
 		return
 	}
-	if v.Imports != 0 {
+	kept := 0
+	if r.apps[0].kept != nil {
+		kept = 1 // the bootstrap capability holds on to one import until it is shut down
+	}
+	if v.Imports != kept {
 		s.Fail("import_leak", "import.go:(*importClient).Shutdown", fmt.Sprintf("all local references to imports were released but the import table still has %d entries", v.Imports))
 		return
 	}
 	for id := uint32(0); id < r.peer.nextExp; id++ {
 		e := r.peer.mine[id]
+		if e != nil && kept == 1 && id == r.apps[0].keptExport && e.refs > 0 {
+			continue
+		}
 		if e != nil && e.refs != 0 {
 			s.Fail("release_count_mismatch", "import.go:(*importClient).Shutdown", fmt.Sprintf("all local references were released but the Conn still holds %d reference(s) on the peer's export %d (no Release sent)", e.refs, e.id))
 			return
@@ -1076,7 +1083,7 @@ func (r *run) afterClose() {
 		return
 	}
 	for _, a := range r.apps {
-		if a.shutdown != 1 && r.prop != "C09" && r.prop != "C08" {
+		if a.shutdown != 1 && r.prop != "C08" {
 			s.Fail("shutdown_count", "rpc.go:(*Conn).shutdown", fmt.Sprintf("after Close and after the application dropped its own references, application capability %d has been released %d times (want exactly 1)", a.id, a.shutdown))
 			return
 		}
